@@ -82,6 +82,11 @@ def circ(d):
     return np.abs((d + 0.5) % 1.0 - 0.5)
 
 
+def _same_rows(x, y):
+    """row by row the same atoms in the same sequence, read forwards or backwards (i-j-k is the angle k-j-i)"""
+    return all(list(r) == list(q) or list(r) == list(q)[::-1] for r, q in zip(x.tolist(), y.tolist()))
+
+
 def compare_loaded(b, a, mode, fail):
     if list(b.elements) != list(a.elements):
         fail("elements/order differ: %s vs %s" % (list(b.elements)[:8], list(a.elements)[:8]), "elements")
@@ -114,11 +119,11 @@ def compare_loaded(b, a, mode, fail):
     for kind, w in (("bond", 2), ("angle", 3)):
         x = np.asarray(getattr(b, atomsgen.ARR[kind])).reshape(-1, w)
         y = np.asarray(getattr(a, atomsgen.ARR[kind])).reshape(-1, w)
-        if x.shape != y.shape or not np.array_equal(x, y):
+        if x.shape != y.shape or not _same_rows(x, y):
             fail("%s read back as %s, wrote %s" % (atomsgen.ARR[kind], x.tolist()[:4], y.tolist()[:4]), kind)
     want = np.concatenate([np.asarray(a.dihedrals).reshape(-1, 4), np.asarray(a.impropers).reshape(-1, 4)]).astype(int)
     got = np.asarray(b.dihedrals).reshape(-1, 4)
-    if got.shape != want.shape or not np.array_equal(got, want):
+    if got.shape != want.shape or not _same_rows(got, want):
         fail("torsions read back as %s, wrote dihedrals+impropers %s" % (got.tolist()[:4], want.tolist()[:4]), "torsions")
     if len(b.impropers):
         fail("reader produced impropers", "torsions")
